@@ -687,10 +687,10 @@ def rest_cases(ctx, n_supported, n_any, seed_offset=0):
 
 
 def correspond(ctx):
-  n_lat, dis_lat, hist = lattice_cases(ctx, ctx.budget(3, 24))
+  n_lat, dis_lat, hist = lattice_cases(ctx, ctx.budget(3, 16))
   n_flt, dis_flt, fails, stats, distinct = float_cases(
-      ctx, ctx.budget(2, 16), ctx.budget(1, 6), 200, ctx.budget(3, 22))
-  n_rest, fails_rest, rstats = rest_cases(ctx, ctx.budget(2, 12), ctx.budget(1, 6))
+      ctx, ctx.budget(2, 10), ctx.budget(1, 4), 200, ctx.budget(3, 14))
+  n_rest, fails_rest, rstats = rest_cases(ctx, ctx.budget(2, 8), ctx.budget(1, 4))
   stats.update(rstats)
   seen, uniq = set(), []
   for f in fails + fails_rest:           # one replay per key
@@ -726,9 +726,9 @@ def correspond(ctx):
 
 def search(ctx, broken, corr):
   """the Spec on the real code over the property's quantifier (budgeted)"""
-  _, _, fails, _, _ = float_cases(ctx, ctx.budget(5, 40), ctx.budget(2, 12), 200, 10 ** 9, seed_offset=5000,
+  _, _, fails, _, _ = float_cases(ctx, ctx.budget(3, 30), ctx.budget(1, 10), 200, 10 ** 9, seed_offset=5000,
                                   spec_only=True)
-  _, fails_rest, _ = rest_cases(ctx, ctx.budget(4, 30), ctx.budget(0, 6), seed_offset=5000)
+  _, fails_rest, _ = rest_cases(ctx, ctx.budget(2, 20), ctx.budget(0, 6), seed_offset=5000)
   seen, uniq = set(), []
   for f in fails + fails_rest:
     if f['key'] not in seen:
